@@ -503,6 +503,10 @@ class GateMemoizer:
         def make_context_entry(arg):
             if isinstance(arg, str):
                 return context.get(arg)
+            elif isinstance(arg, (list, tuple)):
+                # Identifiers nested in an argument, e.g. q[a], also
+                # depend on the context.
+                return tuple(make_context_entry(a) for a in arg)
             else:
                 return None
 
